@@ -41,6 +41,8 @@ def run(prop, tier, replay_path=None):
         ("wire", "MC_wire", "SPECIFICATION Spec\nCONSTANTS\n  MaxRows = %d\nINVARIANTS Inv Emit\nCHECK_DEADLOCK FALSE\n" % (5 if quick else 6)),
         ("ints", "MC_delta", "SPECIFICATION Spec\nCONSTANTS\n  W1 = 1\n  W2 = 3\n  W3 = 7\n  VMax = 12\n  V = 9\n  MaxLen = %d\nINVARIANTS Inv Emit\nCHECK_DEADLOCK FALSE\n" % (3 if quick else 4)),
         ("floats", "MC_fclass", "SPECIFICATION Spec\nCONSTANTS\n  NClasses = 12\n  MaxLen = %d\nINVARIANTS Emit\nCHECK_DEADLOCK FALSE\n" % (3 if quick else 4)),
+        ("xor", "MC_xor", "SPECIFICATION Spec\nCONSTANTS\n  B = 15\n  MW = 3\n  LZCap = 31\n  MaxLen = %d\n  Pool = {%s}\nINVARIANTS Inv Emit\nCHECK_DEADLOCK FALSE\n"
+         % (3, "0, 1, 7, 8184, 8185, 8188, 16384, 24568" if quick else "0, 1, 7, 8184, 8185, 8188, 16384, 24568, 24569, 32760, 32767, 16376, 8192, 12288")),
     ):
         r = run_tlc(module, write_cfg("c16_" + mode, cfg), workers=NCPU // 2, timeout=3000)
         if r["violated"]:
@@ -54,8 +56,8 @@ def run(prop, tier, replay_path=None):
         jobs.append(tlc_job_summary(r))
         log("%s: %d cases" % (module, len(lines)))
     violations, known = [], []
-    stats = {"wire": 0, "ints": 0, "floats": 0, "sequences": 0, "evals": 0, "layouts": {}, "layout_differs": 0}
-    for mode in ("wire", "ints", "floats"):
+    stats = {"wire": 0, "ints": 0, "floats": 0, "xor": 0, "sequences": 0, "evals": 0, "layouts": {}, "layout_differs": 0, "xor_token_mismatch": 0}
+    for mode in ("wire", "ints", "floats", "xor"):
         rs = shards(mode, srcs[mode], d, [] if quick else ["--all-mantissas"])
         for x in rs:
             if x.get("process_died"):
@@ -65,7 +67,7 @@ def run(prop, tier, replay_path=None):
             stats[mode] += x["units"]
             stats["sequences"] += x["sequences"]
             stats["evals"] += x["evals"]
-            stats["layout_differs"] += x["layout_differs"]
+            stats["xor_token_mismatch" if mode == "xor" else "layout_differs"] += x["layout_differs"]
             for k, v in x["layouts"].items():
                 stats["layouts"][k] = stats["layouts"].get(k, 0) + v
             for v in x["violations"]:
@@ -87,16 +89,19 @@ def run(prop, tier, replay_path=None):
         "evaluations": stats["wire"] + stats["sequences"] + stats["evals"],
         "samples": [json.loads(open(srcs["wire"]).readlines()[100]), json.loads(open(srcs["ints"]).readlines()[1000])],
         "integer_layouts_chosen_by_impl": stats["layouts"], "layout_differs_from_spec": stats["layout_differs"],
+        "xor_sequences": stats["xor"], "xor_token_streams_differing_from_spec": stats["xor_token_mismatch"],
         "rule": "WireBuffer.tla: every history of <= %d rows over cell kinds {int, float, str, null, absent} (TLC checks Sound, prints variant + logical cells; replay: real row API, "
                 "serialize/deserialize, every wire-schema representation of the same cells, ingest + SELECT on the embedded database). DeltaLayout.tla at widths (1,3,7): round trip and "
                 "narrow fit for every sequence of <= %d values in -9..9; each printed vector is concretised at the i8/i16/i32 bounds as first differences, second differences and values "
                 "from 4 starting points (ends of the i64 range included), plus 18 sequences whose differences overflow i64; QueryResponse serialize/deserialize must return the same integers. "
                 "Float class sequences of <= %d over 12 classes x mantissa settings %s x max_regret {0,3,100} x {as is, repeated with varying low word}: bit-exact, or sign/exponent/leading "
-                "mantissa bits exact." % (5 if quick else 6, 3 if quick else 4, 3 if quick else 4, "{None,0,1,7,23,51,52}" if quick else "None and 0..52"),
+                "mantissa bits exact. XorFloat.tla (the window coder transcribed at 15-bit words: sign, 11 exponent bits, 3 mantissa bits): Keeps and FieldsOK for every sequence of <= 3 words of "
+                "the pool x mantissa {None,0..3} x regret {0,3,100}; each printed sequence, lifted by 49 bits, goes through the real coder: the post-condition must hold and the real token stream is "
+                "compared with the specification's." % (5 if quick else 6, 3 if quick else 4, 3 if quick else 4, "{None,0,1,7,23,51,52}" if quick else "None and 0..52"),
         "jobs": jobs, "exhaustive": True,
     }
     write_evidence("C16", tier, "model_checking", coverage,
-                   ["the XOR window coder itself is not modelled in TLA+ (numeric codec): the specification states what must survive (Keeps) and TLC enumerates the class sequences",
+                   ["XorFloat.tla models the window coder at 15-bit words; the real 64-bit coder is bound to it by token-stream comparison on lifted words (a differing but lossless stream is reported, not a violation)",
                     "the layout the real coder chooses is read from the message and compared with DeltaLayout!Layout at the real widths for coverage only (a different but lossless choice is not a violation)",
                     "values i64::MAX and NaN are not used as cells on the database route (in-band NULL markers, property C01)"],
                    time.time() - t0, len(violations))
